@@ -315,10 +315,15 @@ impl Prop for C01 {
         }
         // --- integer widths: component + DEFAULT over boundary pairs (field type vs default fn type)
         let mut seen2 = std::collections::BTreeSet::new();
+        let mut seen3 = std::collections::BTreeSet::new();
         for c in c06::C06.enumerate(Tier::Quick, seed) {
-            if matches!(c.ctx.as_str(), "default" | "refdefault" | "value" | "refvalue") && (c.form != "single" || seen2.len() < 400) {
+            // (the single-range forms are thinned out: C06 itself visits all of them)
+            let thinned = c.form == "single" || c.form.starts_with("open");
+            let open = c.form.starts_with("open");
+            if matches!(c.ctx.as_str(), "default" | "refdefault" | "value" | "refvalue") && (!thinned || (!open && seen2.len() < 400) || (open && seen3.len() < 400)) {
                 let t = c06::text(&c);
-                if seen2.insert(fnv(&t)) && (seen2.len() % if tier.thorough() { 1 } else { 8 } == 0 || c.form != "single") {
+                let fresh = if open { seen3.insert(fnv(&t)) } else { seen2.insert(fnv(&t)) };
+                if fresh && ((seen2.len() + seen3.len()) % if tier.thorough() { 1 } else { 8 } == 0 || !thinned) {
                     push(format!("width:{}|{}", c.ctx, c.form), vec![t], d.clone());
                 }
             }
